@@ -269,5 +269,163 @@ def check(run):
     run.clause('no packet re-enters a route behind a hop: a retransmitted TCP segment gets its full route back before it is re-queued (shared with C06)')
     import p06
     p06.retransmit_route_rule(run)
+    run.clause('every segment crosses the hops of ITS direction: channel::hops[i] leads to ep[i] (sender\'s outgoing route first, receiver\'s incoming route last), sockets send on hops[remote_idx(own endpoint)]')
+    channel_orientation_rules(run)
     run.floor('R10', 2)
     run.floor('R4', 3)
+
+
+# ---------------------------------------------------------------------------
+# channel orientation (shared with C05, C13, C20)
+SIM = 'sim::simulation'
+TCPS = 'sim::asio::ip::tcp::socket'
+
+
+def _index_value(fn, e):
+    """integer literal an array index denotes, or None"""
+    return q.int_value(q.strip_casts(e))
+
+
+def _subscript(fn, n):
+    """(base text, index node) of an array subscript expression"""
+    n = q.strip_casts(n)
+    if is_node(n) and n['k'] == 'sub':
+        return q.render(fn, n.get('base')), n.get('idx')
+    return None, None
+
+
+def _route_terms(fn, e, depth=0):
+    """flatten a `+` chain of routes (through single-definition locals) into its operand nodes"""
+    e = q.strip_casts(e)
+    while is_node(e) and e['k'] == 'construct' and len(e.get('args') or []) == 1:
+        e = q.strip_casts(e['args'][0])
+    if not is_node(e):
+        return []
+    if e['k'] == 'call' and e.get('opc') == '+':
+        return _route_terms(fn, e['args'][0], depth) + _route_terms(fn, e['args'][1], depth)
+    if e['k'] == 'ref' and e.get('dk') == 'local' and depth < 4:
+        ds = q.local_defs(fn, e['did'])
+        if len(ds) == 1:
+            return _route_terms(fn, ds[0][1], depth + 1)
+    return [e]
+
+
+def _route_end(fn, t):
+    """('out'|'in', text of the object) when the term is X->get_outgoing_route() / X->get_incoming_route()"""
+    if is_node(t) and t['k'] == 'call':
+        nm = (q.callee_name(t) or '').split('::')[-1]
+        if nm in ('get_outgoing_route', 'get_incoming_route') and is_node(t.get('obj')):
+            return ('out' if nm == 'get_outgoing_route' else 'in'), q.render(fn, t['obj'])
+    return None, None
+
+
+def connector_index(fx):
+    """k such that simulation::internal_connect stores the CONNECTING socket's endpoint in channel::ep[k]"""
+    ic = fx.fn1(SIM + '::internal_connect')
+    pn = [p.get('name') for p in ic.params]
+    me = pn[0] if pn else 's'
+    owner = {}
+    for n in ic.all_nodes():
+        lhs = rhs = None
+        if n['k'] == 'bin' and n['op'] == '=':
+            lhs, rhs = n['lhs'], n['rhs']
+        elif n['k'] == 'call' and n.get('opc') == '=' and len(n.get('args') or []) == 2:
+            lhs, rhs = n['args']
+        if lhs is None:
+            continue
+        base, idx = _subscript(ic, lhs)
+        if base is None or not base.endswith('->ep'):
+            continue
+        r = q.strip_casts(rhs)
+        if is_node(r) and r['k'] == 'call' and is_node(r.get('obj')):
+            owner[_index_value(ic, idx)] = q.render(ic, r['obj'])
+    return ic, me, owner
+
+
+def channel_orientation_rules(run):
+    """channel::hops[i] is the route TOWARDS ep[i]: the connection set-up composes it from the other side's outgoing
+    route and this side's incoming route, and a socket sends on hops[remote_idx(own endpoint)].  Mixing the two indices
+    (or the two sockets) sends a segment over the wrong direction's hops - wrong queues and NATs, or straight back to
+    the sender."""
+    fx = run.fx
+    ic, me, owner = connector_index(fx)
+    run.touch(ic)
+    if set(owner) != {0, 1} or me not in owner.values():
+        run.broke('simulation::internal_connect: c->ep[0]/c->ep[1] = <socket>->local_bound_to() idiom not found (%s)' % owner)
+    nh = 0
+    for n in ic.all_nodes():
+        lhs = rhs = None
+        if n['k'] == 'call' and n.get('opc') == '=' and len(n.get('args') or []) == 2:
+            lhs, rhs = n['args']
+        if lhs is None:
+            continue
+        base, idx = _subscript(ic, lhs)
+        if base is None or not base.endswith('->hops'):
+            continue
+        j = _index_value(ic, idx)
+        terms = _route_terms(ic, rhs)
+        first = _route_end(ic, terms[0]) if terms else (None, None)
+        last = _route_end(ic, terms[-1]) if terms else (None, None)
+        nh += 1
+        ok = j in owner and first == ('out', owner[1 - j]) and last == ('in', owner[j]) and len(terms) >= 2
+        run.check(ok, 'R4', 'route-orientation', '%s: c->hops[%s]' % (ic.norm, j), ic.loc(n),
+                  'hops[%s] must lead to ep[%s] (%s): it has to start with %s\'s outgoing route and end with %s\'s incoming route, but it is composed as %s ... %s - segments in that direction bypass the sender\'s own hops (its NAT, its uplink queue) or the receiver\'s'
+                  % (j, j, owner.get(j), owner.get(1 - j) if j in owner else '?', owner.get(j), first, last),
+                  'starts at %s (outgoing), ends at %s (incoming)' % (owner.get(1 - j) if j in owner else '?', owner.get(j)))
+    if nh < 2:
+        run.broke('simulation::internal_connect: fewer than two hops[] assignments found')
+    k = [i for i, o in owner.items() if o == me][0]
+    # the SYN travels towards the acceptor
+    for a in q.field_accesses(ic, {'sim::aux::packet::hops'}):
+        if a.kind != 'assign':
+            continue
+        rhs = a.site['args'][1] if a.site['k'] == 'call' else a.site.get('rhs')
+        base, idx = _subscript(ic, rhs)
+        run.check(base is not None and base.endswith('->hops') and _index_value(ic, idx) == 1 - k, 'R4', 'route-orientation', ic.norm + ': SYN route', ic.loc(a.site),
+                  'the SYN is routed on %s, not on the hops towards the listening socket (hops[%d])' % (q.render(ic, rhs), 1 - k), 'SYN uses hops[%d], towards the acceptor' % (1 - k))
+    # sockets: hops[] is indexed by remote_idx(own endpoint) only
+    ns = 0
+    for fn in fx.repo_functions():
+        top = q.top_function(fx, fn)
+        if top.cls != TCPS:
+            continue
+        for n in fn.all_nodes():
+            if n['k'] != 'sub':
+                continue
+            base = q.render(fn, n.get('base'))
+            if base != 'm_channel->hops':
+                continue
+            ns += 1
+            run.touch(fn)
+            idx = q.strip_casts(n.get('idx'))
+            srcs = []
+            if is_node(idx) and idx['k'] == 'ref' and idx.get('dk') == 'local':
+                srcs = [q.strip_casts(r) for _, r in q.reaching_defs(fn, idx['did'], n)]
+            elif is_node(idx):
+                srcs = [idx]
+            ok = bool(srcs) and all(is_node(s_) and s_['k'] == 'call' and (q.callee_name(s_) or '').endswith('channel::remote_idx') and q.render(fn, s_['args'][0] if s_.get('args') else None) == 'm_bound_to' for s_ in srcs)
+            run.check(ok, 'R4', 'send-direction', '%s: m_channel->hops[%s]' % (top.norm, q.render(fn, idx)), fn.loc(n),
+                      'the socket takes its sending route from hops[%s] where that index is %s, not remote_idx(m_bound_to): hops[self] leads back to this socket, so the segment (or retransmission, or ACK) is delivered to its own sender and never reaches the peer'
+                      % (q.render(fn, idx), ' / '.join(q.render(fn, s_)[:50] for s_ in srcs) or 'unknown'),
+                      'indexed by remote_idx(m_bound_to)')
+    if ns < 4:
+        run.broke('fewer than 4 reads of m_channel->hops[] in tcp::socket (%d; 4 confirmed by hand)' % ns)
+    # the accepted side: the peer is the connector (ep[k]); the route towards itself (hops[1-k]) ends in its own forwarder
+    ai = fx.fn1(TCPS + '::internal_connect')
+    run.touch(ai)
+    na = 0
+    for n in ai.all_nodes():
+        if n['k'] != 'sub':
+            continue
+        base = q.render(ai, n.get('base'))
+        j = _index_value(ai, n.get('idx'))
+        if base.endswith('->ep'):
+            na += 1
+            run.check(j == k, 'R4', 'accepted-side-peer', '%s: %s[%s]' % (ai.norm, base, j), ai.loc(n),
+                      'the accepted socket takes its peer from ep[%s]; the connecting side is ep[%d] (ep[%s] is the accepted socket itself, so e.g. the path MTU is looked up for (own address, own address))' % (j, k, j), 'peer is ep[%d], the connector' % k)
+        elif base.endswith('->hops'):
+            na += 1
+            run.check(j == 1 - k, 'R4', 'accepted-side-route', '%s: %s[%s]' % (ai.norm, base, j), ai.loc(n),
+                      'the accepted socket installs itself at the end of hops[%s]; the route that leads to it is hops[%d]' % (j, 1 - k), 'own end of hops[%d]' % (1 - k))
+    if na < 2:
+        run.broke('tcp::socket::internal_connect: ep[]/hops[] uses not found')
